@@ -372,7 +372,9 @@ def main(argv):
                   'hosts': ['div', 'Foo'], 'nested_component_trees': NEST, 'options': 'optimize on; mergeProps, transformOn symbolic'}
     rep.assumptions = ['"can differ between renders" = not (literal | undefined | array/object literal of those with static keys)', 'key and ref are reserved vnode props, not patched as props',
                        'slot flag 2 is always acceptable (conservative); 1 only when no bound identifier is a direct child along direct JSX nesting']
+    kani = common.KaniCross(rep, ['is_on_matches_vue_is_on', 'patch_flags_are_vues'])
     res = common.run_jobs('mirsym.checks.elements', 'run_family_job', js)
+    kani.collect()
     raw = []
     for r in res:
         raw.extend(r.pop('violations', []))
